@@ -584,8 +584,8 @@ Fixpoint py_eval (env : field -> value) (e : pyexpr) {struct e} : res value :=
 
 (* ------------------------------------------------------------------ parse_selection and Topology.select *)
 (* strict = false: the single-literal test as found; strict = true: the repaired test *)
-Definition compile_tokens (cfg : config) (strict : bool) (ts : list token) : option pyexpr :=
-  match parse_all cfg ts with
+Definition compile_parsed (cfg : config) (strict : bool) (oe : option expr) : option pyexpr :=
+  match oe with
   | None => None
   | Some e =>
       if negb (ctor_ok cfg e) then None
@@ -600,6 +600,9 @@ Definition compile_tokens (cfg : config) (strict : bool) (ts : list token) : opt
                if single_ok && compile_ok p then Some p else None
            end
   end.
+
+Definition compile_tokens (cfg : config) (strict : bool) (ts : list token) : option pyexpr :=
+  compile_parsed cfg strict (parse_all cfg ts).
 
 (* [a.index for a in atoms if f(a)] : the first exception aborts *)
 Fixpoint select_py (env_of : atom -> field -> value) (p : pyexpr) (atoms : list atom) : res (list Z) :=
@@ -616,14 +619,17 @@ Fixpoint select_py (env_of : atom -> field -> value) (p : pyexpr) (atoms : list 
       end
   end.
 
-Definition select_tokens (cfg : config) (strict : bool) (atoms : list atom) (ts : list token) : outcome :=
-  match compile_tokens cfg strict ts with
+Definition run_compiled (cfg : config) (atoms : list atom) (op : option pyexpr) : outcome :=
+  match op with
   | None => Rejected
   | Some p => match select_py (attr cfg) p atoms with
               | Ok l => Sel l
               | Err x => EvalErr x
               end
   end.
+
+Definition select_tokens (cfg : config) (strict : bool) (atoms : list atom) (ts : list token) : outcome :=
+  run_compiled cfg atoms (compile_tokens cfg strict ts).
 
 Definition select_str (cfg : config) (strict : bool) (atoms : list atom) (s : string) : outcome :=
   match lex cfg s with
